@@ -89,7 +89,8 @@ def build_harness(bins=None):
             os.makedirs(HARNESS, exist_ok=True)
             subprocess.run(["rsync", "-a", "--delete", "--exclude", "target", HARNESS_SRC + "/", HARNESS + "/"], check=True)
             ct = os.path.join(HARNESS, "Cargo.toml")
-            open(ct, "w").write(open(ct).read().replace("/repo/mos-core", os.path.join(REPO, "mos-core")))
+            txt = open(ct).read().replace("/repo/mos-core", os.path.join(REPO, "mos-core"))
+            open(ct, "w").write(txt)
         cmd = ["cargo", "build", "--offline", "-q"]
         for b in bins or []:
             cmd += ["--bin", b]
